@@ -249,13 +249,14 @@ func init() {
 			if !ok {
 				return nil
 			}
-			tpls := map[string]string{"broken.twig": bad, "entry.twig": "x{% include 'broken.twig' %}", "child.twig": "{% extends 'broken.twig' %}", "imp.twig": "{% import 'broken.twig' as b %}"}
+			bname := c20BrokenNames[int(hashStr(bad+cs.Via)%uint64(len(c20BrokenNames)))]
+			tpls := map[string]string{bname: bad, "entry.twig": "x{% include '" + bname + "' %}", "child.twig": "{% extends '" + bname + "' %}", "imp.twig": "{% import '" + bname + "' as b %}"}
 			for n, s := range cs.C14.P.Sources() {
 				if n != cs.Tpl {
 					tpls[n] = s
 				}
 			}
-			entry := map[string]string{"direct": "broken.twig", "include": "entry.twig", "extends": "child.twig", "import": "imp.twig"}[cs.Via]
+			entry := map[string]string{"direct": bname, "include": "entry.twig", "extends": "child.twig", "import": "imp.twig"}[cs.Via]
 			loader := cs.C14.P.Loader
 			if loader == "" {
 				loader = "memory"
@@ -268,8 +269,8 @@ func init() {
 			if r.Status != "error" {
 				return &Fail{Sig: "name:accepted", Expected: "error", Observed: r.Out}
 			}
-			if r.ErrName != "broken.twig" && !strings.Contains(r.Err, "broken.twig") {
-				return &Fail{Sig: "name:missing", Expected: "an error naming broken.twig", Observed: fmt.Sprintf("%s (Name()=%q)", r.Err, r.ErrName)}
+			if !strings.Contains(r.Err, bname) && (r.ErrName != bname || strings.Contains(r.Err, "%!")) {
+				return &Fail{Sig: "name:missing", Expected: "an error naming " + bname + " (Name() and message)", Observed: fmt.Sprintf("%s (Name()=%q)", r.Err, r.ErrName)}
 			}
 		}
 		return nil
@@ -401,3 +402,6 @@ func c20Inject(toks []m.Tok, pos []m.Pos, src string, cs *c20Case) (string, int,
 	}
 	return "", 0, 0, false
 }
+
+// c20BrokenNames are the names under which the broken template is loaded.
+var c20BrokenNames = []string{"broken.twig", "promo%20banner.html", "b%d.twig", "dir/sub file.txt", "ünï.twig", "100%.js"}
